@@ -99,8 +99,11 @@ def node_rows(nd: dict) -> dict:
     from ..wire import dec_type
     def row(ws):
         return [pt(dec_type(w).to_model()) for w in ws]
-    out = {"a": [], "b": [], "c": [], "rows": []}
+    out = {"a": [], "b": [], "c": [], "rows": [], "targs": []}
     op = nd.get("op")
+    if op in ("Call", "LoadFunction"):
+        from ..wire import dec_arg
+        out["targs"] = [pt(dec_arg(w).to_model()) for w in nd.get("type_args") or []]
     if op in ("DFG", "CFG", "Extension", "CallIndirect", "Case"):
         out["a"], out["b"] = row(nd["signature"]["input"]), row(nd["signature"]["output"])
     elif op in ("Call", "LoadFunction"):
@@ -150,7 +153,7 @@ def proj_node(n) -> dict:
                 callee = rd(args[2], "symbol")
             elif s == "core.load_const" and len(args) == 2 and type(args[1]).__name__ == "Apply":
                 callee = rd(args[1], "symbol")
-    opsym, opargs, ncalleeargs = "", [], -1
+    opsym, opargs, ncalleeargs, calleeargs = "", [], -1, []
     if cls == "CustomOp":
         t = rd(op, "operation")
         if type(t).__name__ == "Apply":
@@ -159,6 +162,7 @@ def proj_node(n) -> dict:
             f = args[2] if opsym == "core.call" and len(args) == 3 else args[1] if opsym == "core.load_const" and len(args) == 2 else None
             if f is not None and type(f).__name__ == "Apply":
                 ncalleeargs = len(rd(f, "args"))
+                calleeargs = [pt(a) for a in rd(f, "args")]
     nparams, nonlinear, constterm = 0, [], ""
     if cls in ("DefineFunc", "DeclareFunc"):
         symb = rd(op, "symbol")
@@ -191,7 +195,7 @@ def proj_node(n) -> dict:
                     vj = f"<not json: {lit(a[1])!r}>"
                 metakeys.append(f"{lit(a[0])}={vj}")
     symsig = pt(rd(rd(op, "symbol"), "signature")) if cls in ("DefineFunc", "DeclareFunc") else {"k": "ty", "s": ""}
-    return {"sig": pt(rd(n, "signature")), "symsig": symsig, "opsym": opsym, "opargs": opargs, "ncalleeargs": ncalleeargs, "op": cls, "sym": sym, "callee": callee, "inputs": list(rd(n, "inputs")), "outputs": list(rd(n, "outputs")),
+    return {"sig": pt(rd(n, "signature")), "symsig": symsig, "opsym": opsym, "opargs": opargs, "ncalleeargs": ncalleeargs, "calleeargs": calleeargs, "op": cls, "sym": sym, "callee": callee, "inputs": list(rd(n, "inputs")), "outputs": list(rd(n, "outputs")),
             "regions": [proj_region(r) for r in rd(n, "regions")], "key": key, "metakeys": metakeys, "nparams": nparams, "nonlinear": nonlinear, "constterm": constterm}
 
 
@@ -226,6 +230,26 @@ def pair(name, h) -> dict:
                 terms[k] = repr(h[src[0]].op.val.to_model())
     out["constterms"] = terms
     return out
+
+
+def _two_param_calls():
+    """C12's own inputs (not in the shared catalogue): a function with two type parameters, called and loaded with two DIFFERENT type
+    arguments, so that the order of the arguments the callee symbol is applied to is observable."""
+    from hugr import tys
+    from hugr.build.function import Module
+    A = tys.TypeBound.Any
+    m = Module()
+    sig = tys.PolyFuncType([tys.TypeTypeParam(A), tys.TypeTypeParam(A)],
+                           tys.FunctionType([tys.Variable(0, A), tys.Variable(1, A)], [tys.Variable(1, A), tys.Variable(0, A)]))
+    decl = m.declare_function("swap", sig)
+    f = m.define_function("main", [tys.Qubit, tys.Bool])
+    q, b = f.inputs()
+    c = f.call(decl, q, b, instantiation=tys.FunctionType([tys.Qubit, tys.Bool], [tys.Bool, tys.Qubit]),
+               type_args=[tys.Qubit.type_arg(), tys.Bool.type_arg()])
+    inst = tys.FunctionType([tys.Bool, tys.Qubit], [tys.Qubit, tys.Bool])
+    lf = f.load_function(decl, instantiation=inst, type_args=[tys.Bool.type_arg(), tys.Qubit.type_arg()])
+    f.set_outputs(c[0], c[1], lf)
+    return [("two-type-args", m.hugr)]
 
 
 def judge_exports(pairs, wd, tag="exp"):
@@ -287,6 +311,8 @@ def run(ctx: Ctx) -> None:
                 pairs.append(pair(f"cat:{name}", h))
             except Exception as e:  # noqa: BLE001
                 ctx.violation({"check": f"export raised {type(e).__name__}"}, {"catalog": name}, "to_model() succeeds", repr(e)[:300], clause="export", leg="C2S")
+        for name, h in _two_param_calls():
+            pairs.append(pair(f"c12:{name}", h))
         v, res = judge_exports(pairs, wd)
         ctx.add_tlc("C2S ExportCheck", res)
         ctx.traces += len(pairs)
